@@ -222,6 +222,14 @@ EntDenomChanged(s) == s.ent.p.denom # s.ent.totLockedDen \/ \E i \in DOMAIN s.en
 MsgState(s) == <<s.ent.po, s.ent.rq, s.ent.aq, s.ent.wl, s.ent.next, s.ent.p, s.wrk.p, s.wrk.ch, s.wrk.next,
                  s.bcn.p, s.bcn.ch, s.bcn.next, s.str.p, s.str.s, s.supply, s.bal["stream"], s.grants, s.fgrants>>
 FailedTxKeepsState(s, t, ev, ok) == (ev.a = "DeliverTx" /\ ~ok) => MsgState(s) = MsgState(t)
+\* digests of the modules' whole stores (observed states only): a failed transaction leaves the registry and stream stores
+\* byte-identical, and the enterprise store too unless eFUND was unlocked before execution; read-only calls change none
+FailedTxKeepsStores(s, t, ev, ok) ==
+  ("dig" \in DOMAIN s /\ "dig" \in DOMAIN t /\ ev.a = "DeliverTx" /\ ~ok) =>
+     /\ s.dig.wrk = t.dig.wrk /\ s.dig.bcn = t.dig.bcn /\ s.dig.str = t.dig.str
+     /\ (s.ent.spent = t.ent.spent => s.dig.ent = t.dig.ent)
+ReadOnlyKeepsStores(s, t, ev) ==
+  ("dig" \in DOMAIN s /\ "dig" \in DOMAIN t /\ ev.a \in {"CheckTx", "Recheck", "Commit", "Crash", "ListQueries"}) => s.dig = t.dig
 QueriesAndChecksReadOnly(s, t, ev) == ev.a \in {"CheckTx", "Recheck", "Commit", "Crash", "ListQueries"} => ModState(s) = ModState(t)
 
 ------------------------------------------------------------------------------
